@@ -1,7 +1,9 @@
 (* Props/C03_tr.v — property C03, the part about the TRANSLATOR: a model of what BehavioralRTLIRToVVisitorL1..L3 emit
    (SV/Translate.v: tr_expr / tr_lhs / tr_stmt / tr_block) and its soundness (SV/TranslateSound.v) with respect to
    the simulator semantics RTL/Eval.v and OUR IEEE-1800 semantics SV/SvSizing.v + SV/SvEval.v.
-   ONLY statements closed by exact / apply + Print Assumptions, and a non-vacuity example.
+   ONLY statements closed by exact / apply + Print Assumptions, and non-vacuity examples.
+   Proved: all expressions; single assignments; if; WHOLE always_comb and always_ff blocks of plain designs without for
+   loops (C03_tr_comb_block_sound, C03_tr_ff_block_sound).  Not proved: for loops, designs with lists of signals.
 
    How this reaches the code (harness/c03_tr.py, every run of ./check C03): for every update block that
    translators/rtlblk2coq.py can express, Coq checks  sv_block_eqb (tr_block names G t) p = true  where p is the always
@@ -106,18 +108,22 @@ Theorem C03_tr_if nm E te st x lbl c t f v : corr nm E te st (X.x_env x) ->
       (add_evs st (map (fun p => (lbl, fst p, snd p)) (probes (tsig E) st 0 c))).
 Proof. exact (tr_if_sound nm E te st x lbl c t f v). Qed.
 
-(* ---- whole combinational blocks ----
+(* ---- whole blocks: always_comb and always_ff ----
    For a plain design (plain_ok: every signal ONE scalar variable of the module - Bits vector or packed struct -, fields at
    the offsets of the declaration table, temporaries declared, all spellings distinct) and an update block accepted by
-   comb_ok (blocking assignments to signals / fields / part selects / bits / temporaries, nested if / elif / else, every
-   expression sv_ok, the block type-checks; NO for loop), from related states (inv: every signal variable holds the
-   simulator's packed value modulo the signal width, assigned temporaries their value, nothing pending):
-   if the simulator runs the block without raising, then after SvEval has run the EMITTED always_comb body
-   nothing is pending, the loop fuel was never exhausted, EVERY signal and field (s, p) reads the simulator's new value of
-   that field, and every temporary python has assigned holds its value. *)
+   comb_ok / ff_ok (assignments to signals / fields / part selects / bits / temporaries - blocking in a combinational
+   block; non-blocking to whole signals plus blocking temporaries in an update_ff block -, arbitrarily nested
+   if / elif / else, every expression sv_ok, the block type-checks; NO for loop), from related states
+   (inv: every signal variable holds the simulator's packed value modulo the signal width, assigned temporaries their
+   value; comb: nothing pending; ff: committing the pending list yields what the simulator's signals hold after the edge):
+   if the simulator runs the block without raising, then after SvEval has run the EMITTED always body
+     comb: nothing is pending and EVERY signal and field (s, p) reads the simulator's new value of that field;
+     ff:   after the commit at the clock edge every signal and field reads the simulator's post-edge value (final_sig),
+           and before it still the pre-edge value;
+   the loop fuel was never exhausted, and every temporary python has assigned holds its value. *)
 Theorem C03_tr_comb_block_sound te nm G ntmp b st st' x :
   plain_ok te nm G ntmp = true -> comb_ok te nm ntmp G b = true ->
-  inv te nm G ntmp (init_tenv G) st x -> exec_block G b st = Ok st' ->
+  inv te nm G ntmp false (init_tenv G) st x -> exec_block G b st = Ok st' ->
   let x' := X.exec_list te (tr_block nm G b) x in
   X.x_pend x' = [] /\ X.x_ok x' = true /\
   (forall s p f, lookup_sig G s p = Some f ->
@@ -125,34 +131,47 @@ Theorem C03_tr_comb_block_sound te nm G ntmp b st st' x :
   (forall i v, tmpv st' i = Some v -> Z'.lookup (X.x_env x') (n_tmp nm i) = Z'.VZ (value_int v)).
 Proof. exact (tr_comb_block_sound te nm G ntmp b st st' x). Qed.
 
-(* ... the relation is an invariant (this is what composes: the final states are related again) ... *)
-Theorem C03_tr_comb_block_invariant te nm G ntmp b st st' x :
-  plain_ok te nm G ntmp = true -> comb_ok te nm ntmp G b = true ->
-  inv te nm G ntmp (init_tenv G) st x -> exec_block G b st = Ok st' ->
-  inv te nm G ntmp (env_after_list (init_tenv G) b) st' (X.exec_list te (tr_block nm G b) x).
-Proof. intros HP. exact (tr_comb_block_sound_gen te nm G ntmp HP b st st' x). Qed.
+Theorem C03_tr_ff_block_sound te nm G ntmp b st st' x :
+  plain_ok te nm G ntmp = true -> ff_ok te nm ntmp G b = true ->
+  inv te nm G ntmp true (init_tenv G) st x -> exec_block G b st = Ok st' ->
+  let x' := X.exec_list te (tr_block nm G b) x in
+  let enc := X.commit (X.x_pend x') (X.x_env x') in
+  X.x_ok x' = true /\
+  (forall s p f, lookup_sig G s p = Some f ->
+     Z'.read_bits enc (Z'.resolve te enc (tr_sig nm s p)) = (final_sig st' s / 2 ^ flo f) mod 2 ^ fw f) /\
+  (forall s p f, lookup_sig G s p = Some f ->
+     Z'.read_bits (X.x_env x') (Z'.resolve te (X.x_env x') (tr_sig nm s p)) = (sigv st' s / 2 ^ flo f) mod 2 ^ fw f) /\
+  (forall i v, tmpv st' i = Some v -> Z'.lookup (X.x_env x') (n_tmp nm i) = Z'.VZ (value_int v)).
+Proof. exact (tr_ff_block_sound te nm G ntmp b st st' x). Qed.
 
-(* ... and it holds where an always_comb block starts: signal variables hold the packed signal values, python has not
-   assigned any temporary yet *)
-Theorem C03_tr_comb_block_start te nm G ntmp st en : plain_ok te nm G ntmp = true ->
-  (forall i, tmpv st i = None) ->
+(* ... the relation is an invariant of both kinds of block (this is what composes: the final states are related again) ... *)
+Theorem C03_tr_block_invariant te nm G ntmp ff b st st' x :
+  plain_ok te nm G ntmp = true -> cstmts_ok te nm ntmp ff (init_tenv G) b = true ->
+  inv te nm G ntmp ff (init_tenv G) st x -> exec_block G b st = Ok st' ->
+  inv te nm G ntmp ff (env_after_list (init_tenv G) b) st' (X.exec_list te (tr_block nm G b) x).
+Proof. intros HP. exact (tr_block_sound_gen te nm G ntmp ff HP b st st' x). Qed.
+
+(* ... and it holds where an always block starts: signal variables hold the packed signal values, python has not assigned
+   any temporary yet, (ff) no <<= has been executed yet *)
+Theorem C03_tr_block_start te nm G ntmp ff st en :
+  (forall i, tmpv st i = None) -> (ff = true -> forall s, nxtv st s = None) ->
   (forall s f0, lookup_sig G s [] = Some f0 -> PositiveMap.find (sid nm s) en = Some (Z'.VZ (sigv st s))) ->
   (forall i w, (i < ntmp)%nat -> tmp_decl te nm i = Some w ->
      exists U, PositiveMap.find (n_tmp nm i) en = Some (Z'.VZ U) /\ 0 <= U < 2 ^ w) ->
-  inv te nm G ntmp (init_tenv G) st (X.mkx en [] true).
-Proof. intros _. exact (inv_init te nm G ntmp st en). Qed.
+  inv te nm G ntmp ff (init_tenv G) st (X.mkx en [] true).
+Proof. exact (inv_init te nm G ntmp ff st en). Qed.
 
-(* one statement of such a block (used by the induction; stated because it is the key lemma): an accepted assignment or
-   if preserves the relation under the typing environment threaded by env_after *)
-Theorem C03_tr_comb_stmt_preserves te nm G ntmp : plain_ok te nm G ntmp = true -> forall s E,
-  cstmt_ok te nm ntmp E s = true -> tmps_ok te nm ntmp E ->
-  forall st x st', inv te nm G ntmp E st x -> exec G s st = Ok st' ->
-  inv te nm G ntmp (env_after E s) st' (X.exec te (tr_stmt nm E s) x).
-Proof. intros HP s E Hok T. exact (proj2 (stmt_prop_all te nm G ntmp HP s E Hok T)). Qed.
+(* the key lemma of the induction: ONE accepted statement (assignment of any target kind, or if) preserves the relation
+   under the typing environment threaded by env_after *)
+Theorem C03_tr_stmt_preserves te nm G ntmp ff : plain_ok te nm G ntmp = true -> forall s E,
+  cstmt_ok te nm ntmp ff E s = true -> tmps_ok te nm ntmp E ->
+  forall st x st', inv te nm G ntmp ff E st x -> exec G s st = Ok st' ->
+  inv te nm G ntmp ff (env_after E s) st' (X.exec te (tr_stmt nm E s) x).
+Proof. intros HP s E Hok T. exact (proj2 (stmt_prop_all te nm G ntmp ff HP s E Hok T)). Qed.
 
-(* NOT proved: for loops (TranslateSound.tr_for_sound_partial names the missing lemma) and always_ff blocks with their
-   pending non-blocking writes (tr_ff_block_sound_partial); harness/c03_tr.py samples both on random inputs for every
-   compared block on every run (Translate.blk_diff). *)
+(* NOT proved: for loops (the iteration correspondence between loop_count and the fuel loop of SvEval.exec; named at the
+   end of SV/TranslateSound.v) and designs with lists of signals.  TranslateSound.tr_block_sound_partial is the general
+   statement; harness/c03_tr.py samples it on random inputs for every compared block on every run (Translate.blk_diff). *)
 
 (* ---- the comparison used by the tie is an equality up to inlined localparams ---- *)
 Theorem C03_tr_sexpr_eqb_eq x y : sexpr_eqb x y = true -> x = y.
@@ -187,9 +206,10 @@ Print Assumptions C03_tr_assign_bit.
 Print Assumptions C03_tr_assign_temporary.
 Print Assumptions C03_tr_if.
 Print Assumptions C03_tr_comb_block_sound.
-Print Assumptions C03_tr_comb_block_invariant.
-Print Assumptions C03_tr_comb_block_start.
-Print Assumptions C03_tr_comb_stmt_preserves.
+Print Assumptions C03_tr_ff_block_sound.
+Print Assumptions C03_tr_block_invariant.
+Print Assumptions C03_tr_block_start.
+Print Assumptions C03_tr_stmt_preserves.
 
 (* ---- non-vacuity: a concrete block, translated by tr_block and evaluated both ways ----
      s.a = InPort(8)  s.o = OutPort(8)  s.b = InPort(4)
@@ -272,4 +292,26 @@ Proof.
 Qed.
 Example comb_runs : exists st', exec_block G blk2 (st2 0xA5 3) = Ok st' /\ sigv st' 1 = 0x40.
 Proof. eexists. split; vm_compute; reflexivity. Qed.
+
+(* non-vacuity of C03_tr_ff_block_sound: the update_ff block of TrExample3
+   ( t = s.b + 1 ; if s.a[0]: s.o <<= zext(t, 8)  else: s.o <<= s.a ) *)
+Import TrExample3.
+Example ff_accepted : ff_ok te2 nm2 1 G blk3 = true. Proof. exact ff3. Qed.
+Example ff_emitted :
+  tr_block nm2 G blk3 =
+  [ S.SBlocking (S.EId t_id) (S.EBin S.BAdd (S.EId b_id) (S.ELit 4 1));
+    S.SIf (S.EIndex (S.EId a_id) (S.ELit 3 0))
+      [ S.SNonBlocking (S.EId o_id) (S.EConcat [S.ERepl 4 (S.ELit 1 0); S.EId t_id]) ]
+      [ S.SNonBlocking (S.EId o_id) (S.EId a_id) ] ].
+Proof. vm_compute. reflexivity. Qed.
+Example ff_instance a b st' : exec_block G blk3 (st2 a b) = Ok st' ->
+  let x' := X.exec_list te2 (tr_block nm2 G blk3) (X.mkx (en2 a b) [] true) in
+  let enc := X.commit (X.x_pend x') (X.x_env x') in
+  Z'.read_bits enc (Z'.resolve te2 enc (tr_sig nm2 1 [])) = (final_sig st' 1 / 2 ^ 0) mod 2 ^ 8.
+Proof.
+  intros Hex. destruct (C03_tr_ff_block_sound te2 nm2 G 1 blk3 _ st' _ plain2 ff3 (inv3 a b) Hex) as (_ & Hs & _).
+  exact (Hs 1%nat [] f8 eq_refl).
+Qed.
+Example ff_runs : exists st', exec_block G blk3 (st2 0xA5 3) = Ok st' /\ final_sig st' 1 = 4 /\ sigv st' 1 = 0.
+Proof. eexists. split; [|split]; vm_compute; reflexivity. Qed.
 End Example.
